@@ -207,6 +207,12 @@ func c09Call(id int) (d string, pan bool) {
 		case 0:
 			s, _ := safeSolar(2020, 5, 23, 10, 0, 0)
 			d = lunarDigest(s.GetLunar())
+			// the holiday records of the month before, by every kind of key, and what the civil date makes of them
+			h0, _ := safeSolar(2020, 4, 30, 0, 0, 0)
+			d += sha12(callRender(HolidayUtil.GetHoliday("2020-05-01")) + callRender(HolidayUtil.GetHoliday("20200505")) +
+				callRender(HolidayUtil.GetHolidayByYmd(2020, 5, 9)) + callRender(HolidayUtil.GetHolidays("202005")) +
+				callRender(HolidayUtil.GetHolidaysByTarget("2020-05-01")) + s.Next(-16, true).ToYmd() + h0.Next(1, true).ToYmd() +
+				fmt.Sprint(h0.Next(1, false).GetSalaryRate(), h0.Next(9, false).GetSalaryRate()))
 		case 1:
 			s, _ := safeSolar(2021, 2, 11, 23, 30, 0)
 			d = lunarDigest(s.GetLunar())
@@ -243,6 +249,23 @@ func c09Call(id int) (d string, pan bool) {
 					s.GetOtherFestivals().PushBack("污")
 				})
 			}
+			// and the holiday records, however they were looked up
+			hs := []*HolidayUtil.Holiday{HolidayUtil.GetHoliday("2020-05-01"), HolidayUtil.GetHoliday("20200505"), HolidayUtil.GetHolidayByYmd(2020, 5, 9),
+				HolidayUtil.GetHolidayByYmd(2020, 5, 1), HolidayUtil.GetHoliday("2020-05-09")}
+			for _, l := range []*list.List{HolidayUtil.GetHolidays("202005"), HolidayUtil.GetHolidaysByTarget("2020-05-01"), HolidayUtil.GetHolidaysByYear(2020)} {
+				for e := l.Front(); e != nil; e = e.Next() {
+					hs = append(hs, e.Value.(*HolidayUtil.Holiday))
+				}
+				l.PushBack("污")
+			}
+			for _, h := range hs {
+				if h != nil {
+					h.SetWork(!h.IsWork())
+					h.SetName("污")
+					h.SetTarget("2020-01-01")
+					h.SetDay("2020-01-02")
+				}
+			}
 			d = "scribbled"
 		}
 	})
@@ -251,7 +274,11 @@ func c09Call(id int) (d string, pan bool) {
 
 // scribble calls every Set* method (one argument of a basic kind) of every struct pointer the zero-argument
 // accessors of x return, and appends to every *list.List they return
-func scribble(x interface{}) {
+func scribble(x interface{}) { scribbleWith(x, true) }
+
+// lists = false: only the library's own setters are used (a sequence of public calls of the library), the
+// container/list values are left alone
+func scribbleWith(x interface{}, lists bool) {
 	for _, r := range callZeroArg(x, nil) {
 		if r.panic || !r.val.IsValid() {
 			continue
@@ -264,7 +291,9 @@ func scribble(x interface{}) {
 			continue
 		}
 		if l, ok := v.Interface().(*list.List); ok {
-			l.PushBack("污")
+			if lists {
+				l.PushBack("污")
+			}
 			continue
 		}
 		if v.Elem().Kind() != reflect.Struct {
@@ -284,6 +313,11 @@ func scribble(x interface{}) {
 				arg = reflect.ValueOf(7)
 			case reflect.Bool:
 				arg = reflect.ValueOf(true)
+			case reflect.Ptr:
+				if mt.Type.In(1) != reflect.TypeOf(&calendar.Solar{}) {
+					continue
+				}
+				arg = reflect.ValueOf(calendar.NewSolarFromYmd(1999, 9, 9))
 			default:
 				continue
 			}
